@@ -100,7 +100,7 @@ func (c c19FbCase) valid() string {
 	default:
 		return "depth"
 	}
-	if c.Width < 1 || c.Width > 8400 || c.Height < 1 || c.Height > 8400 || c.Pad > 64 || uint64(c.Width)*uint64(c.Height) > 1<<20 || uint64(c.Height)*uint64(c.Width*4+c.Pad) > 4<<20 {
+	if c.Width < 1 || c.Width > 8400 || c.Height < 1 || c.Height > 8400 || c.Pad > 64 || uint64(c.Height)*uint64(c.Width*4+c.Pad) > 7<<20 {
 		return "size"
 	}
 	if c.GlyphW < 8 || c.GlyphW > 16 || c.GlyphH < 1 || c.GlyphH > 32 {
